@@ -237,6 +237,17 @@ let handle (ws : string list) : string =
        | OcTrap -> "TRAP" | OcTooLarge -> "TOOLARGE" | OcOk m -> "OK " ^ string_of_n m)
   | ["offs"; fixed; nb] ->
       Printf.sprintf "%s %s" (string_of_n (offsets_alloc (fixed = "1") (n_of_string nb))) (string_of_n (offsets_written (n_of_string nb)))
+  | "mapops" :: size :: ops ->
+      (* Train/MapModel.v: the COVER_map table itself; op = a<key> | d<key> *)
+      (match map_init true (n_of_string size) with
+       | None -> "ERR"
+       | Some lg ->
+           let op s = let k = n_of_string (String.sub s 1 (String.length s - 1)) in if s.[0] = 'a' then OpAdd k else OpDel k in
+           (match cmap_run (cmap_clear lg) (List.map op ops) with
+            | None -> "HANG"
+            | Some (m, vs) ->
+                "OK " ^ String.concat "," (List.map string_of_n vs) ^ " |" ^
+                String.concat "" (List.map (fun (k, v) -> " " ^ string_of_n k ^ ":" ^ string_of_n v) m.cm_slots)))
   | _ -> failwith ("unknown case: " ^ String.concat " " ws)
 
 let () =
